@@ -826,15 +826,25 @@ class StoreSim:
                     raise
                 self._note_read(sess, i, served)
             if f.ident:
-                for fid, i in f.ids().items():
-                    try:
-                        t = store.get_flight(fid)
-                    except Exception as e:  # noqa: BLE001
-                        self.fail('lookup.raised', f'fsck: get_flight({fid}) raised {type(e).__name__}: {e}',
-                                  sess, stale=False, present=True)
-                    if t is None:
-                        self.fail('lookup.missing', f'fsck: id {fid} not found', sess, stale=False)
-                    self._check_read(sess, i, t, 'lookup', via='lookup')
+                try:
+                    for fid, i in f.ids().items():
+                        try:
+                            t = store.get_flight(fid)
+                        except Exception as e:  # noqa: BLE001
+                            self.fail('lookup.raised', f'fsck: get_flight({fid}) raised {type(e).__name__}: {e}',
+                                      sess, stale=False, present=True)
+                        if t is None:
+                            self.fail('lookup.missing', f'fsck: id {fid} not found', sess, stale=False)
+                        self._check_read(sess, i, t, 'lookup', via='lookup')
+                except OracleFailure as of:
+                    if info:
+                        # a session that saw a rejected operation must leave the successful
+                        # additions findable (C10) - it is a lookup failure (C08) all the same
+                        of.v['features']['original_code'] = of.v['code']
+                        of.v['props'] = sorted(set(['C10'] + list(of.v.get('props', []))))
+                        of.v['code'] = 'reject.visible_after_reopen'
+                        of.v['features'].update(info)
+                    raise
         finally:
             try:
                 store.close()
